@@ -1209,3 +1209,7 @@ mod test {
         );
     }
 }
+
+#[cfg(any(kani, libtw2_verif))]
+#[path = "/verif/kani/serverbrowse_protocol.rs"]
+mod verif_kani;
